@@ -61,6 +61,8 @@ pub struct Case {
     pub docs: Vec<Node>,
     pub wide: bool,
     pub rewrites: u32,
+    pub amplified: bool,
+    pub long_sequence: bool,
 }
 
 // ---------------------------------------------------------------------------------------
@@ -89,7 +91,7 @@ pub const ELEM_CLASSES: &[NameClass] = &[
     },
     NameClass {
         tag: "concat",
-        names: &["Total", "Price", "TotalPrice", "total_price", "Total-Price", "total", "A", "BC", "AB", "C", "ABC"],
+        names: &["Total", "Price", "TotalPrice", "total_price", "Total-Price", "total", "A", "BC", "AB", "C", "ABC", "a", "b", "ab", "bc", "abc", "c", "aa"],
     },
     NameClass {
         tag: "std",
@@ -195,6 +197,10 @@ pub struct Domain {
     pub max_pool: usize,
     /// no ':' in any name and no xmlns attribute
     pub ns_free: bool,
+    /// probability/256 that one child of one document is amplified to up to 300 occurrences
+    pub amplify_chance: u16,
+    /// probability/256 of a long sequence (up to 12 small documents)
+    pub long_sequence_chance: u16,
 }
 
 pub const ALL_CLASSES: &[(&str, u32)] = &[
@@ -247,6 +253,8 @@ impl Domain {
             min_pool: 2,
             max_pool: 6,
             ns_free: false,
+            amplify_chance: 12,
+            long_sequence_chance: 10,
         }
     }
     /// benign alphabet: plain names only
@@ -529,6 +537,55 @@ fn gen_chain(t: &mut Tape, cx: &mut Ctx, root_idx: usize) -> Node {
     cur
 }
 
+/// repeat one child of one node many times (alternating with a slightly poorer variant), so that
+/// occurrence counters pass 255/256 and optional decisions are taken late
+fn amplify(t: &mut Tape, doc: &mut Node, adjacent: bool) -> bool {
+    // walk down a random path to a node that has children
+    let mut cur: &mut Node = doc;
+    for _ in 0..t.choose(3) {
+        let idxs: Vec<usize> = cur.items.iter().enumerate().filter(|(_, i)| matches!(i, Item::Child(c) if c.children().next().is_some())).map(|(i, _)| i).collect();
+        if idxs.is_empty() {
+            break;
+        }
+        let k = idxs[t.choose(idxs.len())];
+        cur = match &mut cur.items[k] {
+            Item::Child(c) => c,
+            _ => unreachable!(),
+        };
+    }
+    let idxs: Vec<usize> = cur.items.iter().enumerate().filter(|(_, i)| matches!(i, Item::Child(_))).map(|(i, _)| i).collect();
+    if idxs.is_empty() {
+        return false;
+    }
+    let k = idxs[t.choose(idxs.len())];
+    let orig = match &cur.items[k] {
+        Item::Child(c) => c.clone(),
+        _ => unreachable!(),
+    };
+    if orig.count_nodes() > 6 {
+        return false;
+    }
+    let mut variant = orig.clone();
+    if !variant.attrs.is_empty() {
+        variant.attrs.remove(0);
+    } else if !variant.items.is_empty() {
+        variant.items.remove(0);
+    }
+    let reps = *t.pick(&[3usize, 9, 40, 130, 255, 256, 257, 300]);
+    let vary = t.chance(128);
+    let mut extra: Vec<Item> = Vec::with_capacity(reps);
+    for i in 0..reps {
+        extra.push(Item::Child(if vary && i % 2 == 1 { variant.clone() } else { orig.clone() }));
+    }
+    if adjacent {
+        cur.items.splice(k + 1..k + 1, extra);
+    } else {
+        let at = if t.chance(128) { k + 1 } else { cur.items.len() };
+        cur.items.splice(at..at, extra);
+    }
+    true
+}
+
 pub fn decode_case(t: &mut Tape, dom: &Domain) -> Case {
     let wide = dom.allow_wide && t.chance(32);
     let (np, na) = if wide {
@@ -548,14 +605,15 @@ pub fn decode_case(t: &mut Tape, dom: &Domain) -> Case {
         }
     }
     let mut cx = Ctx { dom, elems, attrs, leaf, wide, rewrites: 0 };
-    let k = 1 + t.weighted(&[5, 6, 4, 2, 1][..dom.max_docs.min(5)]);
+    let long_seq = dom.max_docs >= 5 && dom.long_sequence_chance > 0 && t.chance(dom.long_sequence_chance);
+    let k = if long_seq { 6 + t.choose(7) } else { 1 + t.weighted(&[5, 6, 4, 2, 1][..dom.max_docs.min(5)]) };
     let root_idx = 0;
     let mut docs = Vec::new();
     for _ in 0..k {
         if dom.chain_chance > 0 && t.chance(dom.chain_chance) {
             docs.push(gen_chain(t, &mut cx, root_idx));
         } else {
-            let mut budget = if wide { 60 } else { dom.max_nodes };
+            let mut budget = if wide { 60 } else if long_seq { 8 } else { dom.max_nodes };
             let saved;
             let d = if wide {
                 saved = Domain { max_depth: 3, ..dom.clone() };
@@ -569,5 +627,10 @@ pub fn decode_case(t: &mut Tape, dom: &Domain) -> Case {
             docs.push(d);
         }
     }
-    Case { elem_pool: cx.elems, attr_pool: cx.attrs, docs, wide, rewrites: cx.rewrites }
+    let mut amplified = false;
+    if dom.amplify_chance > 0 && t.chance(dom.amplify_chance) {
+        let i = t.choose(docs.len());
+        amplified = amplify(t, &mut docs[i], dom.adjacent_repeats);
+    }
+    Case { elem_pool: cx.elems, attr_pool: cx.attrs, docs, wide, rewrites: cx.rewrites, amplified, long_sequence: long_seq }
 }
